@@ -1,4 +1,5 @@
 import PGA.Proofs.Match
+import PGA.Proofs.Read
 /-!
 # C08 — RING fragment matching returns exactly the embeddings it denotes
 
@@ -122,6 +123,69 @@ theorem C08_matches_iff_full_fails : ¬ C08_matches_iff_full := by
   have : TypeHolds exMol ⟨none, .elem 6, .star⟩ 0 := ha.1
   revert this
   decide
+
+/-! ## The reader: well-formed queries, label names do not matter -/
+
+/-- **Reader, well-formedness**: every query the reader returns — for every parse tree — has its
+bonds and stereo statements between declared atoms, i.e. meets the hypothesis `q.wf` of T1. -/
+theorem C08_read_wf (t : Ast) (q : Query) (h : readFragment t = .ok q) : q.wf = true := by
+  unfold readFragment at h
+  simp only [bind, Except.bind] at h
+  cases hf : Frag.ofAst t with
+  | error e => simp [hf] at h
+  | ok f => simp only [hf] at h; exact Read.frag_wf f q h
+
+/-- **T3, reading**: renaming the atom labels of a fragment by any injective renaming `σ` (fresh,
+distinct names) changes nothing but the label names in what the reader returns — same outcome
+class, same atoms, bonds, constraints and stereo statements.  Every fragment, every length.
+(Stated on the typed fragment `Frag` the tree is first decoded into; layout and white space are
+consumed by the parser and do not reach the tree — C09.) -/
+theorem C08_alpha_read (σ : String → String) (hσ : Function.Injective σ) (f : Frag) :
+    Read.frag (f.rename σ) = (Read.frag f).map (Query.relabel σ) :=
+  Read.frag_rename σ hσ f
+
+/-- **T3, label names are not part of a query's meaning**: relabelling a query leaves its matches
+on every molecule unchanged. -/
+theorem C08_labels_irrelevant (σ : String → String) (q : Query) (m : Mol) :
+    queryMatches (q.relabel σ) m = queryMatches q m :=
+  queryMatches_relabel σ q m
+
+/-- **T3**: the matches of a fragment do not depend on the choice of label names: for every
+fragment, every injective renaming and every molecule, reading the renamed fragment and matching
+gives the same outcome (same error, or the same list of matches). -/
+theorem C08_alpha_matches (σ : String → String) (hσ : Function.Injective σ) (f : Frag) (m : Mol) :
+    (Read.frag (f.rename σ)).map (queryMatches · m) = (Read.frag f).map (queryMatches · m) := by
+  rw [C08_alpha_read σ hσ f]
+  cases Read.frag f with
+  | error e => rfl
+  | ok q => simp only [Except.map]; rw [C08_labels_irrelevant]
+
+/-- a typed fragment for the examples: `C labeled a  C labeled b double bond to a` -/
+def exFrag : Frag :=
+  { pre := [], name := "x", ty0 := ⟨none, "C", none⟩, label0 := "a", chain0 := [],
+    items := [.bonded ⟨none, "C", none⟩ "b" "double" "a" []] }
+
+/-- a renaming for the examples: swap the labels `a` and `b` -/
+def swapAB (s : String) : String := if s = "a" then "b" else if s = "b" then "a" else s
+
+theorem swapAB_injective : Function.Injective swapAB := by
+  have inv : ∀ s, swapAB (swapAB s) = s := by
+    intro s
+    unfold swapAB
+    by_cases h1 : s = "a"
+    · subst h1; decide
+    · by_cases h2 : s = "b"
+      · subst h2; decide
+      · simp [h1, h2]
+  intro x y h
+  rw [← inv x, ← inv y, h]
+
+/-- non-vacuity of T3: an injective renaming that really moves the labels of the example -/
+example : (exFrag.rename swapAB).label0 = "b" := by decide
+
+example (m : Mol) : (Read.frag (exFrag.rename swapAB)).map (queryMatches · m) =
+    (Read.frag exFrag).map (queryMatches · m) :=
+  C08_alpha_matches swapAB swapAB_injective exFrag m
 
 /-! ## The cap of 10 000 candidates (F30) -/
 
